@@ -581,6 +581,10 @@ func (r *Reader) RefsFor(oid []byte) (*Iterator, error) {
 	if err != nil {
 		return nil, err
 	}
+	if it == nil {
+		// no ref blocks in this table.
+		return &Iterator{&emptyIterator{}}, nil
+	}
 	return &Iterator{&filteringRefIterator{
 		tab:         r,
 		oid:         oid,
@@ -595,6 +599,10 @@ func (r *Reader) refsForIndexed(oid []byte) (*Iterator, error) {
 	it, err := r.seek(want)
 	if err != nil {
 		return nil, err
+	}
+	if it == nil {
+		// beyond the last indexed object.
+		return &Iterator{&emptyIterator{}}, nil
 	}
 
 	got := objRecord{}
